@@ -55,10 +55,38 @@ def run(ctx):
     V = ctx.body('verify_tx')
     tail = [(b, t.span, 'return ContextualTransactionVerifier::verify') for b, t in P.call_sites(V, 'ContextualTransactionVerifier::verify')
             if t.dest and t.dest.strip() == '_0']
-    ctx.floor('C18.r2', 'verify_tx returns the contextual verifier result', len(tail), 1)
     succ = ctx.success_sinks(V)
-    ctx.ob('C18.r2', V.name, 'the only success-capable return is the contextual verifier result',
-           all(lbl.startswith('return <call ContextualTransactionVerifier::verify') for _, _, lbl in succ), returns=[l for _, _, l in succ])
+    if tail:
+        ctx.ob('C18.r2', V.name, 'the only success-capable return is the contextual verifier result',
+               all(lbl.startswith('return <call ContextualTransactionVerifier::verify') for _, _, lbl in succ), returns=[l for _, _, l in succ])
+    else:
+        # later shape (F82): `let cycles = Contextual..verify(..)?; DaoScriptSizeVerifier..verify()?; Ok(cycles)`: every
+        # success-capable return is an Ok whose payload is the contextual verifier's Ok value, behind both verifiers
+        vdu = DefUse(V)
+        cv = P.call_sites(V, 'ContextualTransactionVerifier::verify')
+        ctx.floor('C18.r2', 'call of the contextual verifier in verify_tx', len(cv), 1)
+        oks = [(bid, sp, lbl) for bid, sp, lbl in succ]
+        payload_ok = bool(oks)
+        for bid, sp, lbl in oks:
+            blk = V.blocks[bid]
+            st = [s_ for s_ in blk.stmts if s_.kind == 'assign' and s_.lhs.strip() == '_0']
+            payload_ok &= bool(st) and all(any(o[0] == 'call' and o[1] == 'ContextualTransactionVerifier::verify' for o in vdu.origins(a, stop_at_calls=False))
+                                           for s_ in st for a in re.findall(r'(?:move |copy )(_\d+)', s_.rhs))
+        ctx.ob('C18.r2', V.name, 'the only success-capable return carries the cycles of the contextual verifier', payload_ok, returns=[l for _, _, l in succ])
+        tail = oks
+        ctx.guard('C18.r2', V, 'ContextualTransactionVerifier::verify', 'Ok', tail)
+    # F82: the DAO lock-size rule of the full nodes (tx-pool and block verification) is part of the verification
+    dao = P.call_sites(V, lambda k, t: k.endswith('DaoScriptSizeVerifier::verify'))
+    ctx.ob('C18.r2', V.name, 'the DAO script size verifier runs before a transaction is accepted', bool(dao),
+           failing_history=None if dao else 'a phase-1 DAO withdrawal whose withdrawing cell has a longer lock than the deposit cell is accepted and pending; full nodes answer DaoLockSizeMismatch')
+    if dao:
+        ctx.guard('C18.r2', V, lambda k, t: k.endswith('DaoScriptSizeVerifier::verify'), 'Ok', tail, gname='DaoScriptSizeVerifier::verify')
+    # F81: header deps are resolved
+    Rz = ctx.body('resolve_tx')
+    hd = [t for _, k, t in P.call_keys(Rz) if k.endswith('header_deps_iter')]
+    gh = [t for c in [Rz] + P.closures_of(Rz) for _, k, t in P.call_keys(c) if k.endswith('HeaderProvider>::get_header')]
+    ctx.ob('C18.r2', Rz.name, 'every header dep is looked up in the header provider (unknown -> InvalidHeader)', bool(hd) and bool(gh),
+           failing_history=None if (hd and gh) else 'a valid transaction with an added header dep 0x..deadbeef which no script loads: accepted, stored as pending and relayed; full nodes reject it (InvalidHeader)')
     ctx.guard('C18.r2', V, lambda k, t: k.endswith('NonContextualTransactionVerifier::verify'), 'Ok', tail, gname='NonContextualTransactionVerifier::verify')
     ctx.guard('C18.r2', V, 'resolve_tx', 'Ok', tail)
     C = ctx.body('ContextualTransactionVerifier::verify')
@@ -88,6 +116,15 @@ def run(ctx):
     act, _ = census.compute(P, 'verify_tx', closures=True)
     pre = [e for e in act if e['cls'] == 'reject' and any('get_header_fields' in a and re.search(r'is (None|Break)$', a.rstrip()) for a in e['trigger'])]
     ctx.ob('C18.r2', V.name, 'an unknown header on the median-time walk is an error before the contextual verifier runs', bool(pre))
+    # (F15d, known: the C18 face of F15b) a cell is resolved through the TxHash record of its transaction, which a fork rollback
+    # does not remove: outputs of transactions of abandoned blocks are still `Live` for the verification
+    from rules.C04 import key_ops as _key_ops
+    _fo, _ = _key_ops(ctx, 'Storage::filter_block')
+    _ro, _ = _key_ops(ctx, 'Storage::rollback_to_block')
+    ctx.ob('C18.r2', 'Storage::rollback_to_block', 'the transaction records of rolled-back blocks are removed (a cell is resolved only from the stored chain)',
+           'TxHash' in _ro['delete'] or 'TxHash' not in _fo['put'],
+           failing_history='tx T indexed in block 2; rollback_to_block(2): get_cells no longer lists its output, but send_transaction accepts and stores a child spending it, and a '
+           'resubmitted T is reported `committed` in the rolled-back block instead of `pending`')
     R = ctx.body('resolve_tx')
     ctx.loop_guard('C18.r2', R, lambda k, t: k.startswith('HashSet') and k.endswith('::insert'), 'true', gname='current_inputs.insert')
     # resolve_cell closure: Ok(cell_meta) from the provider only in the Live arm
